@@ -83,11 +83,9 @@ func helperOK(fd *ast.FuncDecl, obj *types.Func, info *types.Info) string {
 			return false
 		case *ast.DeferStmt:
 			why = "defer"
-		case *ast.LabeledStmt:
-			why = "label"
 		case *ast.BranchStmt:
-			if x.Label != nil {
-				why = "labelled branch"
+			if x.Tok == token.GOTO {
+				why = "goto"
 			}
 		case *ast.CallExpr:
 			if id, ok := x.Fun.(*ast.Ident); ok {
@@ -152,6 +150,7 @@ func inlineNewHelpers(pkgs []*packages.Package, frozen map[string]frozenFn, over
 		}
 	}
 	edits := map[string][]textEdit{}
+	aliasText := map[string]string{}
 	imports := map[string]map[string]string{} // file -> name -> path to add
 	site := 0
 	for _, pk := range modPkgs {
@@ -202,7 +201,8 @@ func inlineNewHelpers(pkgs []*packages.Package, frozen map[string]frozenFn, over
 						continue
 					}
 					site++
-					pro, temps := expandText(h, call, recvExpr, src, off, site+round*1000)
+					pro, temps, als := expandText(h, call, recvExpr, src, off, site+round*1000)
+					aliasText[fname] += als
 					for n, p := range need {
 						if imports[fname] == nil {
 							imports[fname] = map[string]string{}
@@ -273,6 +273,9 @@ func inlineNewHelpers(pkgs []*packages.Package, frozen map[string]frozenFn, over
 					}
 				}
 			}
+		}
+		if a := aliasText[fname]; a != "" {
+			es = append(es, textEdit{len(src), len(src), "\n" + a, 0})
 		}
 		b, lm, ok := applyEdits(src, es)
 		if !ok {
@@ -442,7 +445,7 @@ func shadowed(h *helperInfo, pk *packages.Package, at token.Pos) string {
 			why = "identifier " + id.Name + " of the helper means something else at the call site"
 		}
 	}
-	ast.Inspect(h.decl, func(n ast.Node) bool {
+	ast.Inspect(h.decl.Body, func(n ast.Node) bool {
 		if sel, ok := n.(*ast.SelectorExpr); ok {
 			ast.Inspect(sel.X, func(m ast.Node) bool {
 				if id, ok := m.(*ast.Ident); ok {
@@ -460,8 +463,9 @@ func shadowed(h *helperInfo, pk *packages.Package, at token.Pos) string {
 	if why != "" {
 		return why
 	}
-	// package names used by the helper must not be shadowed by a local of the caller
-	ast.Inspect(h.decl, func(n ast.Node) bool {
+	// package names used by the helper's body must not be shadowed by a local of the caller (the types of its signature
+	// are written through file-level aliases and are not affected)
+	ast.Inspect(h.decl.Body, func(n ast.Node) bool {
 		if id, ok := n.(*ast.Ident); ok {
 			if pn, ok := h.pkg.TypesInfo.Uses[id].(*types.PkgName); ok {
 				if _, got := inner.LookupParent(id.Name, at); got != nil {
@@ -517,7 +521,17 @@ func importsNeeded(h *helperInfo, pk *packages.Package, callerFile *ast.File) (m
 }
 
 // expandText builds the text inserted before the statement and the names that stand for the call's results.
-func expandText(h *helperInfo, call *ast.CallExpr, recvExpr ast.Expr, callerSrc []byte, off func(token.Pos) int, id int) (string, []string) {
+func expandText(h *helperInfo, call *ast.CallExpr, recvExpr ast.Expr, callerSrc []byte, off func(token.Pos) int, id int) (string, []string, string) {
+	// types of the signature are named through aliases declared at file scope, where no local of the caller can shadow a
+	// package name they mention
+	var aliases bytes.Buffer
+	nAlias := 0
+	alias := func(typeText string) string {
+		nAlias++
+		name := fmt.Sprintf("__kvt%d_%d", id, nAlias)
+		fmt.Fprintf(&aliases, "type %s = %s\n", name, typeText)
+		return name
+	}
 	hf := h.pkg.Fset
 	hoff := func(p token.Pos) int { return hf.Position(p).Offset }
 	htext := func(n ast.Node) string { return string(h.src[hoff(n.Pos()):hoff(n.End())]) }
@@ -532,7 +546,7 @@ func expandText(h *helperInfo, call *ast.CallExpr, recvExpr ast.Expr, callerSrc 
 				n = 1
 			}
 			for i := 0; i < n; i++ {
-				rtypes = append(rtypes, htext(f.Type))
+				rtypes = append(rtypes, alias(htext(f.Type)))
 				if len(f.Names) > 0 {
 					rnames = append(rnames, f.Names[i].Name)
 				} else {
@@ -552,10 +566,17 @@ func expandText(h *helperInfo, call *ast.CallExpr, recvExpr ast.Expr, callerSrc 
 		txt  string
 	}
 	var rs []rng
+	nRet := 0
 	ast.Inspect(h.decl.Body, func(n ast.Node) bool {
 		switch x := n.(type) {
 		case *ast.FuncLit:
 			return false
+		case *ast.LabeledStmt:
+			rs = append(rs, rng{hoff(x.Label.Pos()), hoff(x.Label.End()), fmt.Sprintf("%s_kv%d", x.Label.Name, id)})
+		case *ast.BranchStmt:
+			if x.Label != nil {
+				rs = append(rs, rng{hoff(x.Label.Pos()), hoff(x.Label.End()), fmt.Sprintf("%s_kv%d", x.Label.Name, id)})
+			}
 		case *ast.ReturnStmt:
 			txt := "{ "
 			switch {
@@ -571,6 +592,7 @@ func expandText(h *helperInfo, call *ast.CallExpr, recvExpr ast.Expr, callerSrc 
 			}
 			txt += "break " + label + " }"
 			rs = append(rs, rng{hoff(x.Pos()), hoff(x.End()), txt})
+			nRet++
 		}
 		return true
 	})
@@ -584,7 +606,7 @@ func expandText(h *helperInfo, call *ast.CallExpr, recvExpr ast.Expr, callerSrc 
 		cur = r.e
 	}
 	body.Write(h.src[cur:be])
-	if len(rs) > 0 {
+	if nRet > 0 {
 		fmt.Fprintf(&b, "%s:\n", label)
 	}
 	b.WriteString("switch {\ndefault:\n")
@@ -613,8 +635,9 @@ func expandText(h *helperInfo, call *ast.CallExpr, recvExpr ast.Expr, callerSrc 
 		}
 		tmp := fmt.Sprintf("__kva%d_%d", id, k)
 		k++
-		fmt.Fprintf(&b, "var %s %s = %s\n", tmp, htext(rf.Type), expr)
-		binds = append(binds, bind{name, htext(rf.Type), tmp})
+		rt := alias(htext(rf.Type))
+		fmt.Fprintf(&b, "var %s %s = %s\n", tmp, rt, expr)
+		binds = append(binds, bind{name, rt, tmp})
 	}
 	ai := 0
 	for _, f := range h.decl.Type.Params.List {
@@ -630,9 +653,10 @@ func expandText(h *helperInfo, call *ast.CallExpr, recvExpr ast.Expr, callerSrc 
 			}
 			tmp := fmt.Sprintf("__kva%d_%d", id, k)
 			k++
-			fmt.Fprintf(&b, "var %s %s = %s\n", tmp, htext(f.Type), ctext(call.Args[ai]))
+			pt := alias(htext(f.Type))
+			fmt.Fprintf(&b, "var %s %s = %s\n", tmp, pt, ctext(call.Args[ai]))
 			ai++
-			binds = append(binds, bind{name, htext(f.Type), tmp})
+			binds = append(binds, bind{name, pt, tmp})
 		}
 	}
 	for _, bd := range binds {
@@ -652,7 +676,7 @@ func expandText(h *helperInfo, call *ast.CallExpr, recvExpr ast.Expr, callerSrc 
 	for _, t := range temps {
 		fmt.Fprintf(&b, "_ = %s\n", t)
 	}
-	return b.String(), temps
+	return b.String(), temps, aliases.String()
 }
 
 func findPkgInfo(pk *packages.Package, e ast.Expr) (types.Type, bool) {
